@@ -1247,6 +1247,18 @@ fn set_spelling(canon: &[u8], v: u64) -> Vec<u8> {
 fn arr_spelling(canon: &[u8], v: u64) -> Vec<u8> {
     match v % 4 { 0 => canon.to_vec(), 1 => to_indefinite(canon), 2 => widen_head(canon), _ => with_set_tag(canon) }
 }
+/// every `d9 0102` (set tag) inside the element removed: the pre-Conway spelling of nested sets
+fn strip_inner_set_tags(b: &[u8]) -> Vec<u8> {
+    let mut v = Vec::with_capacity(b.len()); let mut i = 0;
+    while i < b.len() { if i + 2 < b.len() && b[i] == 0xd9 && b[i + 1] == 0x01 && b[i + 2] == 0x02 { i += 3; } else { v.push(b[i]); i += 1; } }
+    v
+}
+/// another wire spelling of the SAME element (k mod 6): as written / nested set tags stripped / indefinite top array /
+/// wide top head / stripped and indefinite / stripped and wide
+fn respell(b: &[u8], v: u64) -> Vec<u8> {
+    match v % 6 { 0 => b.to_vec(), 1 => strip_inner_set_tags(b), 2 => to_indefinite(b), 3 => widen_head(b),
+                  4 => to_indefinite(&strip_inner_set_tags(b)), _ => widen_head(&strip_inner_set_tags(b)) }
+}
 fn prov_labels() -> Vec<(&'static str, &'static str)> {
     vec![
         ("NativeScript", "prov_scripts_ws_into_all"), ("NativeScript", "prov_scripts_ws_into_any"), ("NativeScript", "prov_scripts_ws_into_n_of_k"),
@@ -1268,6 +1280,11 @@ fn prov_labels() -> Vec<(&'static str, &'static str)> {
         ("Redeemers", "prov_data_into_redeemer"), ("Redeemers", "prov_redeemers_forms"),
         ("Transaction", "prov_parts_into_transaction"),
         ("TransactionWitnessSet", "prov_datum_pair_into_ws"), ("Transaction", "prov_datum_pair_into_transaction"),
+        ("Certificates", "prov_pair_certs"), ("TransactionBody", "prov_pair_certs_in_body"), ("VotingProposals", "prov_pair_proposals"),
+        ("TransactionBody", "prov_pair_proposals_in_body"), ("Ed25519KeyHashes", "prov_pair_keyhashes"),
+        ("Credentials", "prov_pair_credentials"), ("TransactionInputs", "prov_pair_inputs"), ("Vkeywitnesses", "prov_pair_vkeys"),
+        ("BootstrapWitnesses", "prov_pair_bootstraps"), ("TransactionWitnessSet", "prov_pair_native_scripts_in_ws"),
+        ("TransactionWitnessSet", "prov_pair_plutus_scripts_in_ws"),
     ]
 }
 fn dec<T, E>(r: Result<T, E>) -> Result<T, ()> { r.map_err(|_| ()) }
@@ -1438,6 +1455,51 @@ fn prov(ty: &str, label: &str, k: u64) -> Option<Result<Vec<u8>, ()>> {
                 else { ws.set_vkeys(&g.vkeywitnesses(1, 2)); Ok(Transaction::new(&g.body(0), &ws, None).to_bytes()) }
             })
         }
+        // ELEMENT PAIRS: the same element twice in a set-typed collection, one copy built through the typed API, the other
+        // decoded from another spelling of the same element (the differing format hint may sit INSIDE the element, e.g. the
+        // pool owners of a registration certificate).  Both are == and are written as the same bytes: the set holds it once.
+        "prov_pair_certs" | "prov_pair_certs_in_body" => {
+            let kinds = [3usize, 3, 3, 0, 2, 9, 14, 16];        // pool registration (nested owners set) most of the time
+            let x = g.certificate(kinds[((k / 6) % 8) as usize], k % 2 == 1, k / 2);
+            dec(Certificate::from_bytes(respell(&x.to_bytes(), v))).map(|y| {
+                let mut c = Certificates::new();
+                if (k / 48) % 2 == 0 { c.add(&x); c.add(&y); } else { c.add(&y); c.add(&g.certificate(1, false, 0)); c.add(&x); }
+                if label == "prov_pair_certs" { c.to_bytes() } else { let mut b = g.body(0); b.set_certs(&c); b.to_bytes() } })
+        }
+        "prov_pair_proposals" | "prov_pair_proposals_in_body" => {
+            let kind = [4u64, 4, 0, 2, 5, 6][((k / 6) % 6) as usize];   // update committee (nested credentials set) most of the time
+            let a = g.gov_action(kind, k % 2);
+            let x = VotingProposal::new(&a, &g.anchor(), &g.reward_any(), &g.coin());
+            dec(VotingProposal::from_bytes(respell(&x.to_bytes(), v))).map(|y| {
+                let mut c = VotingProposals::new(); c.add(&x); c.add(&y);
+                if label == "prov_pair_proposals" { c.to_bytes() } else { let mut b = g.body(0); b.set_voting_proposals(&c); b.to_bytes() } })
+        }
+        "prov_pair_keyhashes" => { let x = g.kh(); dec(Ed25519KeyHash::from_bytes(x.to_bytes())).map(|y| {
+            let mut c = Ed25519KeyHashes::new(); c.add(&x); c.add(&g.kh()); c.add(&y); c.to_bytes() }) }
+        "prov_pair_credentials" => { let x = g.cred_any(); dec(Credential::from_bytes(respell(&x.to_bytes(), v))).map(|y| {
+            let mut c = Credentials::new(); c.add(&x); c.add(&y); c.to_bytes() }) }
+        "prov_pair_inputs" => { let x = g.tx_in(); dec(TransactionInput::from_bytes(respell(&x.to_bytes(), v))).map(|y| {
+            let mut c = TransactionInputs::new(); c.add(&y); c.add(&g.tx_in()); c.add(&x); c.to_bytes() }) }
+        "prov_pair_vkeys" => { let x = g.vkeywitness(); dec(Vkeywitness::from_bytes(respell(&x.to_bytes(), v))).map(|y| {
+            let mut c = Vkeywitnesses::new(); c.add(&x); c.add(&y); c.to_bytes() }) }
+        "prov_pair_bootstraps" => { let x = g.bootstrap_witness(); dec(BootstrapWitness::from_bytes(respell(&x.to_bytes(), v))).map(|y| {
+            let mut c = BootstrapWitnesses::new(); c.add(&x); c.add(&y); c.to_bytes() }) }
+        "prov_pair_native_scripts_in_ws" => {
+            // a compound script whose nested list is decoded tagged / indefinite / wide
+            let inner = g.native_scripts(1, 2, 0);
+            let x = NativeScript::new_script_all(&ScriptAll::new(&inner));
+            let xb = x.to_bytes();                                   // 82 01 <array>
+            let nested = &xb[2..];
+            let mut yb = vec![0x82, 0x01]; yb.extend_from_slice(&match v % 4 { 0 => nested.to_vec(), 1 => with_set_tag(nested), 2 => to_indefinite(nested), _ => widen_head(nested) });
+            dec(NativeScript::from_bytes(yb)).map(|y| { let mut c = NativeScripts::new(); c.add(&x); c.add(&y);
+                let mut ws = TransactionWitnessSet::new(); ws.set_native_scripts(&c); ws.to_bytes() })
+        }
+        "prov_pair_plutus_scripts_in_ws" => {
+            let x = g.plutus_script(1 + (k / 6) % 3);
+            dec(PlutusScript::from_bytes_with_version(x.to_bytes(), &x.language_version())).map(|y| {
+                let mut c = PlutusScripts::new(); c.add(&x); c.add(&y);
+                let mut ws = TransactionWitnessSet::new(); ws.set_plutus_scripts(&c); ws.to_bytes() })
+        }
         "prov_parts_into_transaction" => {
             // body, witness set and auxiliary data each decoded from their own bytes, then assembled
             let (bm, wm, ak) = (g.r.next() & ALL_BODY, g.r.next() & ALL_WITS, g.below(7));
@@ -1487,8 +1549,19 @@ fn ma_of(pols: &[Policy], m: &Holdings) -> MultiAsset {
 /// an empty policy bundle (what Assets::insert(name, 0) / MultiAsset::insert(policy, Assets::new()) admit)
 fn degenerate_value(v: &Value, g: &mut G, pols: &[Policy]) -> Value {
     let mut ma = v.multiasset().unwrap_or(MultiAsset::new());
-    let how = 1 + g.below(3);
+    // MIXED bundle first: a zero quantity next to a positive one under a policy the value already holds
+    let held = ma.keys();
+    let mut mixed = false;
+    if held.len() > 0 && g.chance(3, 4) {
+        let pid = held.get(g.below(held.len() as u64) as usize);
+        let mut name = g.asset_name();
+        let mut tries = 0;
+        while !ma.get_asset(&pid, &name).is_zero() && tries < 8 { name = g.asset_name(); tries += 1; }
+        if ma.get_asset(&pid, &name).is_zero() { ma.set_asset(&pid, &name, &bn(0)); mixed = true; }
+    }
+    let how = if mixed { g.below(4) } else { 1 + g.below(3) };
     if how & 1 != 0 {
+        // a zero-only policy (next to the positive ones, if any)
         let name = g.asset_name();
         let pid = if !pols.is_empty() && g.chance(2, 3) { pols[g.below(pols.len() as u64) as usize].id.clone() } else { g.sh() };
         // never overwrite a real holding
@@ -1757,7 +1830,7 @@ fn tx_scenario(k: u64, f: &mut Feat) -> Result<Transaction, JsError> {
             g.r = save;
             mk(min + extra, g, f)
         };
-        let out = if degen & 4 != 0 && g.chance(1, 2) {
+        let out = if degen & 4 != 0 && (g.chance(1, 2) || out.amount().multiasset().map(|m| m.len() > 0).unwrap_or(false)) {
             f.set("degenerate_requested_output");
             let mut o = TransactionOutput::new(&out.address(), &degenerate_value(&out.amount(), g, &pols));
             if let Some(d) = out.data_hash() { o.set_data_hash(&d); }
@@ -1972,7 +2045,13 @@ fn tx_scenario(k: u64, f: &mut Feat) -> Result<Transaction, JsError> {
         let d = if g.chance(1, 2) { OutputDatum::new_data_hash(&g.data_hash()) } else { OutputDatum::new_data(&g.plutus_data(1)) };
         tb.add_change_if_needed_with_datum(&change_addr, &d)?; f.set("change_with_datum");
     } else { tb.add_change_if_needed(&change_addr)?; }
-    let tx = tb.build_tx()?;
+    // build_tx re-validates the balance with Value's structural equality, which happens to refuse a body whose outputs carry an
+    // entry the inputs do not; TransactionBuilder::build() (the body alone, also public) does not: when a degenerate requested
+    // output got past add_output, judge what build() releases
+    let tx = if f.v.contains(&"degenerate_requested_output") {
+        f.set("body_via_build");
+        Transaction::new(&tb.build()?, &TransactionWitnessSet::new(), None)
+    } else { tb.build_tx()? };
     let outs = tx.body().outputs();
     let mut n_change = 0; let mut n_change_ma = 0;
     for i in explicit_outs..outs.len() { n_change += 1; if outs.get(i).amount().multiasset().is_some() { n_change_ma += 1; } }
